@@ -262,7 +262,8 @@ def _block(wd, shard, ctx, res, only):
     for C, ns in cases:
         res.evaluations += 1
         case = {"shard": shard, "inner": [C, ns]}
-        src = _mk_header(wd, C, 8)
+        hdm = 35.5 if ns % 2 else 0.0  # the reference DM of the header the block came with must survive, like tsamp and tstart
+        src = _mk_header(wd, C, 8, dm=hdm)
         data = (np.arange(C * ns, dtype=np.float32).reshape(C, ns) * 1.25 - 3.5)
         out = str(wd / "blk.fil")
         try:
@@ -272,7 +273,7 @@ def _block(wd, shard, ctx, res, only):
         except Exception as e:  # noqa: BLE001
             res.violation({"site": "FilterbankBlock.to_file", "symptom": f"raised {type(e).__name__}"}, case, repr(e))
             continue
-        if _verify_fil(out, data.T, 32, src, res, case, "FilterbankBlock.to_file"):
+        if _verify_fil(out, data.T, 32, src, res, case, "FilterbankBlock.to_file", dm=hdm):
             res.outcome("block/roundtrip")
             res.nontrivial += 1
 
